@@ -245,7 +245,7 @@ void hx_stats_json(hx_buf *b, const hx_stats *s) {
     F(data_other_in); F(data_other_out); F(handover_resumes); F(tunnels); F(gaps); F(gaps_refused);
     F(sticky_in); F(sticky_out); F(sticky_seq); F(monitor_checks); F(body_bytes_req); F(body_bytes_res); F(end_markers);
     F(max_in_buf); F(max_out_buf); F(max_pending_header); F(max_tx_list); F(bytes_offered_in); F(bytes_offered_out);
-    F(resp_restart_100); F(leftover_in); F(leftover_out); F(stalls); F(null_tx_callbacks);
+    F(resp_restart_100); F(leftover_in); F(leftover_out); F(stalls); F(null_tx_callbacks); F(cb_after_stop_at_close); F(closes_after_error);
 #undef F
     int pairs = 0;
     for (int i = 0; i < 16; i++) for (int j = 0; j < 16; j++) if (s->state_pairs[i][j]) pairs++;
